@@ -221,7 +221,13 @@ func cmdC17(args []string) error {
 			}
 			rb := &recBowl{}
 			rp := &recPool{}
-			ar := realApplyPatch(patch, applyOpts{Bowl: "fresh", OldDir: oldDir, OutDir: outDir, Whitelist: m,
+			// a third of the applications are INTERRUPTED: stopped at their first checkpoints (inside whitelisted files)
+			// and resumed, the same patcher carrying on with a new pool and a new bowl
+			interrupt := 0
+			if (si+2*k)%3 == 0 {
+				interrupt = 1 + (si+k)%3
+			}
+			ar := realApplyPatch(patch, applyOpts{Bowl: "fresh", OldDir: oldDir, OutDir: outDir, Whitelist: m, Interrupt: interrupt,
 				WrapPool: func(p lake.Pool, _ *tlc.Container) lake.Pool { rp.Pool = p; return rp },
 				WrapBowl: func(b bowl.Bowl) bowl.Bowl { rb.Bowl = b; return rb }})
 			s := c17Subset{Wl: nonNil64(wl), Touched: ar.Touched, Writers: nonNil64(rb.Writers), Transposes: nonNil64(rb.Transposes), Reads: nonNil64(rp.Reads), Out: []string{}, Want: []string{}}
